@@ -632,6 +632,25 @@ func runCheck(id, tier string) int {
 		subsOut[n] = map[string]any{"evaluations": m.Evaluations, "nontrivial": m.NonTrivial, "enumerated": m.Enumerated, "requested_generated": m.Requested, "extra": m.Extra}
 	}
 
+	// generator health: labels a property declares as required must have been reached
+	if len(violations) == 0 && os.Getenv("VERIF_SUB") == "" {
+		if rb, err := os.ReadFile(filepath.Join(pkgDir(id), "REQUIRED_LABELS.txt")); err == nil {
+			for _, line := range strings.Split(string(rb), "\n") {
+				line = strings.TrimSpace(line)
+				if line == "" || strings.HasPrefix(line, "#") {
+					continue
+				}
+				parts := strings.SplitN(line, ":", 2)
+				if len(parts) != 2 {
+					continue
+				}
+				if m := merged[parts[0]]; m == nil || m.Labels[parts[1]] == 0 {
+					inconclusive = append(inconclusive, "generator unhealthy: required class "+line+" was never reached")
+				}
+			}
+		}
+	}
+
 	rule := readRule(id)
 	if saturated {
 		rule += " [distinct count is a lower bound: per-shard hash sets were capped]"
